@@ -157,3 +157,18 @@ MANIFEST_TEXT["C14"] = dict(engine="E-fault", design_ref="DESIGN.md §4 C14",
     level_text="Every byte-granular prefix of ~150 (thorough ~300) values of every Serialize type through load and skip_option, every write budget through serialize with short writes, every 8-byte truncation through the mapped views, "
                "and every RLIMIT_FSIZE limit through both buffered writers.",
     level_note="Faults other than truncation / failing sink / file-size limit (e.g. corrupted bytes) are outside the property.")
+
+PROPS["C12"] = dict(
+    driver="c12", builds=["rel", "dbg"], level="model_checking",
+    rule="E-hist: every push history is replayed on a fresh writer over a real file, ended, and the file compared byte for byte with the serialization of the equivalent in-memory vector. IntVectorWriter: widths x buffer sizes in items "
+         "{0,1,2,3,5,8,64,65} (and the default buffer) x every item count up to 3 buffers + 2 x value stream {pattern, all ones incl. bits above the width} x {push, extend<u8|u16|u32|u64|usize>} x ending {close, close twice, drop}. "
+         "RawVectorWriter: every push history up to depth d over a 12-letter alphabet (push_bit 0/1, push_int at widths 0,1,7,31,32,33,63,64) x buffer sizes {0,1,64,65,128,192} x endings, with and without a parent header, plus long prefixes that "
+         "fill the buffer exactly. After every push len(); is_open before/after; second close Ok and bytes unchanged; IntVector files load back equal. A state is a history; distinct = histories with at least one bit pushed.",
+    bounds={"quick": "10 widths, depth 4: ~310 000 histories", "thorough": "64 widths, depth 5: ~3.6 M histories"},
+    require_counters={},
+    assumptions=[HOOK_ASSUMPTION, "I/O failures are C14's scope; dropping a RawVectorWriter that has a parent header is not generated (the parent is documented to call close_with_header)"],
+)
+MANIFEST_TEXT["C12"] = dict(engine="E-hist", design_ref="DESIGN.md §4 C12",
+    technique="exhaustive exploration of push histories x buffer sizes x endings on the real file writers, byte-for-byte comparison with the in-memory serialization",
+    level_text="All push histories up to the bound for every width and every buffer size incl. 0, sizes smaller than one item and non-multiples of the width; flush boundaries below/at/above are all crossed (counters in the evidence).",
+    level_note="Histories longer than the bound and item counts above the cap are not explored.")
